@@ -7,7 +7,7 @@ Example recv_history :
   let ops := [{| ro_sig := Traces; ro_n := 7; ro_err := false; ro_rec := true |}; {| ro_sig := Logs; ro_n := 5; ro_err := true; ro_rec := false |};
               {| ro_sig := Metrics; ro_n := 3; ro_err := false; ro_rec := true |}; {| ro_sig := Traces; ro_n := 2; ro_err := true; ro_rec := false |}] in
   firstn 25 (vec (recv_run ops)) = [7; 2; 3; 0; 0; 5; 0; 0; 0; 0; 0; 0; 0; 0; 0; 0; 0; 0; 0; 0; 0; 0; 0; 0; 0] /\
-  skipn 25 (vec (recv_run ops)) = [7; 0; 3; 0; 0; 0; 0; 0; 0; 0; 0; 0; 0; 0; 0; 0].
+  firstn 16 (skipn 25 (vec (recv_run ops))) = [7; 0; 3; 0; 0; 0; 0; 0; 0; 0; 0; 0; 0; 0; 0; 0].
 Proof. vm_compute. split; reflexivity. Qed.
 
 (* S5 witness as the probe saw it: 14 log records -> accepted_metric_points = 14 *)
@@ -43,16 +43,22 @@ Proof. vm_compute. reflexivity. Qed.
    the fixed cases at the head of harness/C19/exp_test.go) *)
 Example s2_wire :
   fst (model_out (CExp [2;1;1;0;10;0;0;0;0;0;0;0;1] [(4,0)] [(0,[5])] [] [] [])) =
-  [0;0;0;0;0;0;0;0;0;0;0;0;0;0;0;0;0;0;0;0;0;5;0;0;0; 0;0;0;0;0;0;0;0;0;0;0;0;0;0;0;0].
+  [0;0;0;0;0;0;0;0;0;0;0;0;0;0;0;0;0;0;0;0;0;5;0;0;0; 0;0;0;0;0;0;0;0;0;0;0;0;0;0;0;0; 0;0;0;0;0;0;0;0].
 Proof. vm_compute. reflexivity. Qed.
 
 Example wfr_wire :
   fst (model_out (CExp [2;0;0;0;0;0;0;0;0;1;100;0;0] [(2,0)] [(0,[5])] [] [] [])) =
-  [0;0;0;0;0;0;0;0;0;0;0;0;0;0;0;0;0;0;0;0;0;5;0;0;5; 0;0;0;0;0;0;0;0;0;0;0;0;0;0;0;0].
+  [0;0;0;0;0;0;0;0;0;0;0;0;0;0;0;0;0;0;0;0;0;5;0;0;5; 0;0;0;0;0;0;0;0;0;0;0;0;0;0;0;0; 0;0;0;0;0;0;0;0].
 Proof. vm_compute. reflexivity. Qed.
 
 (* the persistent-queue size witness in wire form (replayed by harness/C19/exp_test.go "witness-PQ-size"):
    three gated Sends, the size gauge reads 2 *)
 Example pq_size_wire :
   fst (snd (model_out (CExp [2;1;1;0;5;0;0;0;0;0;0;0;0;0] [] [(1,[1;1;1])] [] [] []))) = [2].
+Proof. vm_compute. reflexivity. Qed.
+
+(* a pipeline history: a consumer that moves the data out, one that fails after dropping half *)
+Example pipe_history :
+  let ops := [{| pc_n := 10; pc_after := 0; pc_err := false |}; {| pc_n := 8; pc_after := 4; pc_err := true |}] in
+  (lget (PipeOk Logs) (pipe_run Logs ops), lget (PipeFail Logs) (pipe_run Logs ops)) = (10, 8).
 Proof. vm_compute. reflexivity. Qed.
